@@ -126,7 +126,7 @@ def _site(site, file, func):
 
 KNOWN_SITES = {
     # exceptions raised inside sqlfluff itself (innermost sqllineage frame is the parse_string call)
-    "K-sqlfluff-internal@C10": lambda exc, site, msg, case: exc in ("RuntimeError", "AssertionError")
+    "K-sqlfluff-internal@C10": lambda exc, site, msg, case: exc in ("RuntimeError", "AssertionError", "ZeroDivisionError")
     and _site(site, "sqllineage/core/parser/sqlfluff/analyzer.py", "_list_specific_statement_segment") and "parse_string" in site,
     "K-exasol-table-keyword@C10": lambda exc, site, msg, case: exc == "IndexError"
     and _site(site, "sqllineage/core/parser/sqlfluff/utils.py", "extract_as_and_target_segment"),
@@ -137,7 +137,7 @@ KNOWN_SITES = {
     "K-sqlparse-column-of@C10": lambda exc, site, msg, case: case.get("dialect") == "non-validating" and exc == "TypeError"
     and _site(site, "sqllineage/core/parser/sqlparse/models.py", "of"),
     "K-sqlparse-none-identifier@C10": lambda exc, site, msg, case: case.get("dialect") == "non-validating" and exc == "TypeError"
-    and _site(site, "sqllineage/utils/helpers.py", "<genexpr>"),
+    and (_site(site, "sqllineage/utils/helpers.py", "<genexpr>") or (_site(site, "sqllineage/core/models.py", "__init__") and "NoneType" in msg)),
 }
 
 
@@ -404,7 +404,7 @@ ZOO = [
     ("impala", "UPSERT INTO t SELECT a FROM s"), ("impala", "COMPUTE STATS t"), ("impala", "CREATE TABLE t STORED AS PARQUET AS SELECT a FROM s"), ("greenplum", "CREATE TABLE t AS SELECT a FROM s DISTRIBUTED BY (a)"),
     ("mariadb", "INSERT INTO t SELECT a FROM s RETURNING a"), ("soql", "SELECT Id, (SELECT Name FROM Contacts) FROM Account"), ("flink", "INSERT INTO t SELECT a FROM s /*+ OPTIONS('k'='v') */"),
     ("flink", "CREATE TABLE t WITH ('connector' = 'kafka') AS SELECT a FROM s"), ("ansi", "INSERT INTO t DEFAULT VALUES"), ("ansi", "INSERT INTO t (a) VALUES ((SELECT max(a) FROM s))"),
-    ("ansi", "SELECT a FROM (s JOIN u ON s.k = u.k)"), ("ansi", "SELECT a FROM s NATURAL JOIN u"), ("ansi", "VALUES (1, 2), (3, 4)"), ("ansi", "TABLE s"), ("ansi", "SELECT"), ("ansi", "INSERT INTO t"),
+    ("ansi", "SELECT a FROM (s JOIN u ON s.k = u.k)"), ("ansi", "SELECT a FROM s NATURAL JOIN u"), ("ansi", "VALUES (1, 2), (3, 4)"), ("ansi", "TABLE s"), ("teradata", "UPDATE FROM s SET a = s.a WHERE t.k = s.k"), ("ansi", "SELECT count%s(*) FROM s"), ("ansi", "SELECT {{ 0 % 0 }} FROM s"), ("ansi", "SELECT"), ("ansi", "INSERT INTO t"),
     ("ansi", "CREATE TABLE t AS"), ("ansi", "MERGE INTO t USING s ON t.k = s.k"), ("ansi", "UPDATE t SET"), ("ansi", "WITH q AS (SELECT 1) SELECT * FROM q, q q2"), ("ansi", "()"), ("ansi", "SELECT * FROM (((s)))"),
 ]
 ZOO += [
